@@ -1,15 +1,19 @@
 #!/bin/bash
-# tools/import_mutants.sh C03 ... : copy mutA/mutB from /tmp/mut_<ID> into /verif/seeded and evaluate
+# tools/import_mutants.sh C03 ... : copy mutA/mutB from ${SRC_PREFIX:-/tmp/mut_}<ID> into
+# /verif/seeded/<ID>-<A|B> (round 2: SRC_PREFIX=/tmp/mut2_ TARGETS="C D") and evaluate
 cd /verif
+SRC_PREFIX=${SRC_PREFIX:-/tmp/mut_}
+TARGETS=(${TARGETS:-A B})
 for P in "$@"; do
+  i=0
   for V in A B; do
-    src=/tmp/mut_$P
+    T=${TARGETS[$i]}; i=$((i+1))
+    src=$SRC_PREFIX$P
     [ -f $src/mut$V.diff ] || continue
-    d=seeded/$P-$V; mkdir -p $d
+    d=seeded/$P-$T; mkdir -p $d
     cp $src/mut$V.diff $d/patch.diff; cp $src/demo$V.py $d/demo.py
-    # demo on clean tree must exit 0
-    (cd /repo && PYTHONPATH=/repo /venv/bin/python /verif/$d/demo.py > /tmp/demo_clean.log 2>&1; echo "clean demo exit=$?") > $d/eval.log
+    (cd /repo && PYTHONPATH=/repo /venv/bin/python /verif/$d/demo.py > /dev/null 2>&1; echo "clean demo exit=$?") > $d/eval.log
     tools/eval_mutant.sh $P $d/patch.diff $d/demo.py quick >> $d/eval.log 2>&1
-    echo "== $P-$V"; grep -E "demo exit|stable_pass|check exit|VIOLATION|key=|INCONCL|PATCH-DOES" $d/eval.log | cut -c1-220
+    echo "== $P-$T"; grep -E "demo exit|stable_pass|check exit|^VIOLATION|key=|INCONCL|PATCH-DOES" $d/eval.log | cut -c1-220
   done
 done
